@@ -54,7 +54,7 @@ func (dg *defaultGrowerPipeline) worker(ctx context.Context, wg *sync.WaitGroup,
 				return
 			}
 			if err := dg.assemble(root); err != nil {
-				errc <- err
+				sendErr(ctx, errc, err)
 				return
 			}
 			select {
